@@ -13,6 +13,7 @@ import (
 	"sort"
 	"strconv"
 	"strings"
+	"sync"
 	"time"
 )
 
@@ -205,42 +206,49 @@ func runStream(s Stream, property string, seed int64, n int, thorough bool, gmod
 	impls := make([]string, len(cases))
 	keys := make([]string, len(cases))
 	lines := make([]string, len(cases))
-	if iso, ok := s.(Isolated); ok && os.Getenv("VERIF_WORKER") == "" {
+	stalls := make([]time.Duration, len(cases))
+	iso, isolated := s.(Isolated)
+	isolated = isolated && os.Getenv("VERIF_WORKER") == ""
+	if isolated {
 		// (VERIF_DEADLINE, unix seconds: no new case is started after it - the search phase of a check on a changed
 		// tree must end even when every case runs into its timeout; what was not run is not reported at all)
-		done := runIsolated(s.Name(), cases, iso.CaseTimeout(), impls)
-		cases, impls, keys, lines = cases[:done], impls[:done], keys[:done], lines[:done]
+		done := runIsolated(s.Name(), cases, iso.CaseTimeout(), impls, stalls)
+		cases, impls, keys, lines, stalls = cases[:done], impls[:done], keys[:done], lines[:done], stalls[:done]
 	} else {
 		for i, c := range cases {
 			impls[i] = safely(func() string { return s.Impl(c) })
 			keys[i] = lastPanicKey
 		}
 	}
-	for i := range cases {
-		if noTrace && !strings.HasPrefix(impls[i], "process-died") {
+	tr, tracing := s.(Tracing)
+	// norm turns what the implementation side returned into the verdict string and the driver's input line
+	norm := func(c Case, raw string) (string, string) {
+		if noTrace && !strings.HasPrefix(raw, "process-died") {
 			// race-detector-only run: without the tracer the scenario's own verdict means nothing
-			impls[i] = "ok"
-			if _, isTr := s.(Tracing); isTr {
-				impls[i] = "ok\t"
+			raw = "ok"
+			if tracing {
+				raw = "ok\t"
 			}
 		}
+		if tracing {
+			res, trace := raw, ""
+			if k := strings.Index(raw, "\t"); k >= 0 {
+				res, trace = raw[:k], raw[k+1:]
+			}
+			return res, tr.ModelLine(c, trace)
+		}
+		return raw, c.Line
 	}
 	for i, c := range cases {
-		lines[i] = c.Line
-		if tr, ok := s.(Tracing); ok {
-			res, trace := impls[i], ""
-			if k := strings.Index(impls[i], "\t"); k >= 0 {
-				res, trace = impls[i][:k], impls[i][k+1:]
-			}
-			impls[i] = res
-			lines[i] = tr.ModelLine(c, trace)
-		}
+		impls[i], lines[i] = norm(c, impls[i])
 	}
 	if dump := os.Getenv("VERIF_DUMP"); dump != "" {
 		_ = os.WriteFile(dump, []byte(strings.Join(lines, "\n")+"\n"), 0o644)
 	}
+	_, oracleOnly := s.(OracleOnly)
+	unmodelled := oracleOnly || noTrace
 	var models []string
-	if _, ok := s.(OracleOnly); ok || noTrace {
+	if unmodelled {
 		models = make([]string, len(lines))
 		for i := range models {
 			models[i] = "unmodelled"
@@ -252,6 +260,81 @@ func runStream(s Stream, property string, seed int64, n int, thorough bool, gmod
 			return nil, err
 		}
 	}
+	skippedByModel := func(model string) bool {
+		return model == "unmodelled" || (tracing && model == "no-trace")
+	}
+	disagrees := func(impl, model string) bool {
+		if skippedByModel(model) {
+			return false
+		}
+		return (tracing && model != "accept") || (!tracing && model != impl)
+	}
+	bad := func(c Case, impl, model string) bool {
+		ok, _, _ := s.Oracle(c, impl)
+		return !ok || disagrees(impl, model)
+	}
+	// A verdict of a live-server scenario can depend on the machine (a timeout under load, a port taken by another
+	// process, a virtual machine that stood still for seconds): each scenario that fails its oracle or on which model and
+	// implementation differ is run again, alone. A run counts as a vote unless it failed while the stall meter (a
+	// goroutine that measures how late its own 5 ms sleeps return) saw the process held up for longer than stallLimit:
+	// such a run is repeated instead. Two failing votes let the failure stand (the first run and one of two re-runs, as
+	// before); two passing re-runs drop it (`unconfirmed/<key>` in the histogram) and the passing run takes its place.
+	// After seven runs without a decision (or when the time set aside for re-runs is used up) the failure stands.
+	// (Deterministic breakage fails every time; a race that fails one run in two is still kept three times out of four.)
+	if isolated && explicit == nil {
+		confirmed, reruns, began := 0, 0, time.Now()
+		for i := range cases {
+			if !bad(cases[i], impls[i], models[i]) {
+				continue
+			}
+			// (bounded - a dozen scenarios, thirty re-runs, four minutes: beyond that the rest stands as it is)
+			if confirmed >= 12 || reruns >= 30 || time.Since(began) > 4*time.Minute {
+				break
+			}
+			confirmed++
+			_, _, key := s.Oracle(cases[i], impls[i])
+			if key == "" {
+				key = "correspond"
+			}
+			fails, passes, runs := 0, 0, 1
+			if stalls[i] <= stallLimit {
+				fails = 1
+			} else {
+				res.Histogram["disturbed-run"]++
+			}
+			var pImpl, pLine, pModel string
+			for runs < 7 && fails < 2 && passes < 2 && time.Since(began) <= 6*time.Minute {
+				runs++
+				reruns++
+				one, st := []string{""}, []time.Duration{0}
+				if runIsolated(s.Name(), []Case{cases[i]}, iso.CaseTimeout(), one, st) == 0 {
+					break // past VERIF_DEADLINE: not run; the failure stands as it is
+				}
+				impl, line := norm(cases[i], one[0])
+				model := "unmodelled"
+				if !unmodelled {
+					if m, err := runModel(gmodel, []string{line}); err == nil {
+						model = m[0]
+					} else {
+						model = "model-error"
+					}
+				}
+				switch {
+				case !bad(cases[i], impl, model):
+					passes++
+					pImpl, pLine, pModel = impl, line, model
+				case st[0] <= stallLimit:
+					fails++
+				default:
+					res.Histogram["disturbed-run"]++
+				}
+			}
+			if passes >= 2 {
+				res.Histogram["unconfirmed/"+key]++
+				impls[i], lines[i], models[i] = pImpl, pLine, pModel
+			}
+		}
+	}
 	distinct := map[string]bool{}
 	for i, c := range cases {
 		res.Evaluations++
@@ -260,10 +343,9 @@ func runStream(s Stream, property string, seed int64, n int, thorough bool, gmod
 		if nontrivial {
 			distinct[c.Line] = true
 		}
-		_, tracing := s.(Tracing)
-		if models[i] == "unmodelled" || (tracing && models[i] == "no-trace") {
+		if skippedByModel(models[i]) {
 			res.Skipped++
-		} else if (tracing && models[i] != "accept") || (!tracing && models[i] != impls[i]) {
+		} else if disagrees(impls[i], models[i]) {
 			res.DisagreementCount++
 			if len(res.Disagreements) < 20 {
 				res.Disagreements = append(res.Disagreements, Disagreement{c, clip(impls[i]), clip(models[i])})
@@ -278,43 +360,6 @@ func runStream(s Stream, property string, seed int64, n int, thorough bool, gmod
 			if len(res.Failures) < 200 {
 				res.Failures = append(res.Failures, Failure{c, clip(impls[i]), what, key})
 			}
-		}
-	}
-	// A verdict of a live-server scenario can depend on the machine (a timeout under load, a port taken by another
-	// process): each failing scenario is run again, alone, up to two more times; a failure that shows again in either
-	// of them stands, one that never shows again is counted as "unconfirmed" and dropped. (Deterministic breakage fails
-	// every time; a race that fails one run in two is still kept three times out of four.)
-	if iso, ok := s.(Isolated); ok && os.Getenv("VERIF_WORKER") == "" && explicit == nil && len(res.Failures) > 0 {
-		var kept []Failure
-		reruns := 0
-		for _, f := range res.Failures {
-			if reruns >= 12 { // (bounded: beyond a dozen re-runs the rest stands as it is)
-				kept = append(kept, f)
-				continue
-			}
-			confirmed := false
-			for attempt := 0; attempt < 2 && !confirmed; attempt++ {
-				reruns++
-				one := []string{""}
-				runIsolated(s.Name(), []Case{f.Case}, iso.CaseTimeout(), one)
-				r := one[0]
-				if k := strings.Index(r, "\t"); k >= 0 {
-					r = r[:k]
-				}
-				if ok2, _, _ := s.Oracle(f.Case, r); !ok2 {
-					confirmed = true
-				}
-			}
-			if confirmed {
-				kept = append(kept, f)
-			} else {
-				res.Histogram["unconfirmed/"+f.Key]++
-			}
-		}
-		res.FailureCount -= len(res.Failures) - len(kept)
-		res.Failures = kept
-		if res.Failures == nil {
-			res.Failures = []Failure{}
 		}
 	}
 	res.DistinctNontrivial = len(distinct)
@@ -372,6 +417,59 @@ type workerMsg struct {
 	I     int    `json:"i"`
 	Begin bool   `json:"begin,omitempty"`
 	Impl  string `json:"impl,omitempty"`
+	Stall int64  `json:"stall_us,omitempty"` // the longest hold-up the worker's stall meter saw during the case
+}
+
+// stallLimit: a failing run during which the process was held up for longer than this is not a verdict (see runStream).
+const stallLimit = 100 * time.Millisecond
+
+// stallMeter measures how late its own short sleeps return: on an idle machine a few hundred microseconds, on a
+// starved or suspended one (load, a stopped process, a virtual machine that stood still) as long as the hold-up lasted.
+// The scenarios' own deadlines run on the same clock, so a hold-up the meter did not see cannot have expired them.
+type stallMeter struct {
+	mu     sync.Mutex
+	events []stallEvent
+}
+
+type stallEvent struct {
+	at  time.Time
+	gap time.Duration
+}
+
+var meter = &stallMeter{}
+var meterOnce sync.Once
+
+func (m *stallMeter) start() {
+	meterOnce.Do(func() {
+		go func() {
+			const tick = 5 * time.Millisecond
+			for {
+				t := time.Now()
+				time.Sleep(tick)
+				if gap := time.Since(t) - tick; gap > 20*time.Millisecond {
+					m.mu.Lock()
+					if len(m.events) > 4096 {
+						m.events = m.events[2048:]
+					}
+					m.events = append(m.events, stallEvent{time.Now(), gap})
+					m.mu.Unlock()
+				}
+			}
+		}()
+	})
+}
+
+// maxSince is the longest hold-up that ended after t.
+func (m *stallMeter) maxSince(t time.Time) time.Duration {
+	m.mu.Lock()
+	defer m.mu.Unlock()
+	var max time.Duration
+	for _, e := range m.events {
+		if e.at.After(t) && e.gap > max {
+			max = e.gap
+		}
+	}
+	return max
 }
 
 // workerMain runs inside the child: reads cases as JSON lines, answers one JSON line per case.
@@ -379,6 +477,7 @@ func workerMain(s Stream) {
 	in := bufio.NewScanner(os.Stdin)
 	in.Buffer(make([]byte, 1<<20), 1<<28)
 	out := bufio.NewWriter(os.Stdout)
+	meter.start()
 	i := 0
 	for in.Scan() {
 		var c Case
@@ -389,11 +488,12 @@ func workerMain(s Stream) {
 		out.Write(b)
 		out.WriteByte('\n')
 		out.Flush()
+		t0 := time.Now()
 		impl := safely(func() string { return s.Impl(c) })
 		if impl == "panic" {
 			impl = "panic " + lastPanicKey
 		}
-		b, _ = json.Marshal(workerMsg{I: i, Impl: impl})
+		b, _ = json.Marshal(workerMsg{I: i, Impl: impl, Stall: int64(meter.maxSince(t0) / time.Microsecond)})
 		out.Write(b)
 		out.WriteByte('\n')
 		out.Flush()
@@ -405,7 +505,8 @@ func workerMain(s Stream) {
 // workerBin is the binary used for worker subprocesses (the race-enabled build for C15).
 var workerBin = os.Args[0]
 
-func runIsolated(stream string, cases []Case, perCase time.Duration, impls []string) int {
+func runIsolated(stream string, cases []Case, perCase time.Duration, impls []string, stalls []time.Duration) int {
+	meter.start() // (the parent's own meter speaks for a case whose worker died or was killed at its time limit)
 	var deadline time.Time
 	if v, err := strconv.ParseInt(os.Getenv("VERIF_DEADLINE"), 10, 64); err == nil && v > 0 {
 		deadline = time.Unix(v, 0)
@@ -429,6 +530,7 @@ func runIsolated(stream string, cases []Case, perCase time.Duration, impls []str
 			return len(cases)
 		}
 		base := next
+		caseStart := time.Now()
 		go func() {
 			for _, c := range cases[base:] {
 				b, _ := json.Marshal(c)
@@ -483,14 +585,21 @@ func runIsolated(stream string, cases []Case, perCase time.Duration, impls []str
 						n = 24
 					}
 					impls[next] = key + " " + strings.ReplaceAll(firstLines(tail, n), "\n", " | ")
+					stalls[next] = meter.maxSince(caseStart)
 					next++
 					dead = true
 				} else if !m.Begin {
 					impls[base+m.I] = m.Impl
+					stalls[base+m.I] = time.Duration(m.Stall) * time.Microsecond
+					if p := meter.maxSince(caseStart); p > stalls[base+m.I] {
+						stalls[base+m.I] = p
+					}
 					next = base + m.I + 1
+					caseStart = time.Now()
 				}
 			case <-timer.C:
 				impls[next] = "timeout"
+				stalls[next] = meter.maxSince(caseStart)
 				next++
 				_ = cmd.Process.Kill()
 				dead = true
